@@ -99,7 +99,7 @@ namespace nmtools::view
     {
         // NOTE: explicit template arguments, a single tuple argument must be wrapped, not copied (CTAD)
         auto slices_pack = nmtools_tuple<slices_t...>{slices...};
-        return apply_slice(array,slices_pack);
+        return view::apply_slice(array,slices_pack);
     } // slice
 } // namespace nmtools::view
 
